@@ -8,7 +8,7 @@ EXPLANATION = ("The escape functions are per-byte transducers; their loop bodies
                "are decided exhaustively: E1 ldap_escape escapes exactly {\\ * ( ) NUL} = complement of the filter lexer's value class "
                "(extracted from filter.rs) plus the unescaper's trigger byte; E2 dn_escape always escapes a superset of RFC 4514's specials "
                "within ASCII punctuation, space and # only in first position, space only in last; E3 emission order and the single copy of "
-               "the unescaped prefix at the first escape; E4 the input itself is returned when nothing was escaped; E5 ldap_unescape drives "
+               "the unescaped prefix at the first escape - or, when a first-match search over the whole input decides where the loop starts, once before the loop as input[..start], the search's predicate (evaluated like the loop body) holding wherever the loop escapes; what the loop visits is read from the term of its iterator (enumerate / zip(n..) / split_at / slicing / skip), not from its spelling; E4 the input itself is returned only when nothing was escaped (lazy output still unset, or a contains / position / any / all over the whole input that cannot miss a byte the loop escapes); E5 ldap_unescape drives "
                "the shared unescaper (itself evaluated exhaustively over all 5120 (state, byte) pairs against the RFC 4515 automaton), copies "
                "the prefix when the first escape starts, pushes exactly the Value bytes, returns the input when no escape was seen and an "
                "error when the final state is not Value. Not decided: an RFC 4514 parser (there is none in the repository); round trip taken whole.")
@@ -30,14 +30,97 @@ def loop_of(B):
 
 T_LAZY = 'core::option::Option<alloc::vec::Vec<u8>>'
 T_EAGER = 'alloc::vec::Vec<u8>'
+INPUT = ('param', 'input')
+ZERO = ('lit', 0)
+
+def offset(a, n):
+    return n if a == ZERO else absx.bin_term('Add', a, n)
+
+def range_of(t):
+    """(start, end) of a range term used as a slice index; a missing bound is None"""
+    if t[0] == 'struct' and t[1].rsplit('::', 1)[-1] in ('RangeFrom', 'RangeTo', 'RangeFull', 'Range'):
+        fl = dict(t[2])
+        return fl.get('start'), fl.get('end')
+    return None
+
+def byte_walk(t):
+    """What a slice / iterator term over the input visits, read from the term (std semantics of the adaptors, whatever the code
+    calls its variables): (start, index0, layout) - the k-th item carries the byte input[start + k], in order, to the end of the
+    input, and, if index0 is not None, the number index0 + k; layout is 'byte' or (position of the number, position of the byte)
+    in the pair.  None if the term is not such a walk."""
+    if t == INPUT:
+        return (ZERO, None, 'byte')
+    k = t[0]
+    if k == 'enumerate':
+        # enumerate(): pairs (k, item) with k counted from 0
+        w = byte_walk(t[1])
+        return (w[0], ZERO, (0, 1)) if w is not None and w[1] is None else None
+    if k == 'field' and t[2] in ('0', '1') and t[1][0] == 'call' and t[1][1] == 'core::slice::<impl [T]>::split_at' and len(t[1][2]) == 2:
+        # split_at(n).1 is [n..]  (.0 is a prefix, not a walk to the end)
+        w = byte_walk(t[1][2][0])
+        return (offset(w[0], t[1][2][1]), None, 'byte') if t[2] == '1' and w is not None and w[1] is None else None
+    if k == 'index':
+        r = range_of(t[2])
+        w = byte_walk(t[1])
+        if r is not None and r[1] is None and w is not None and w[1] is None:
+            return (offset(w[0], r[0]) if r[0] is not None else w[0], None, 'byte')
+        return None
+    if k == 'call':
+        cal, args = t[1], t[2]
+        if cal == 'core::str::<impl str>::bytes' and len(args) == 1:
+            return byte_walk(args[0])
+        if cal == 'core::iter::traits::iterator::Iterator::zip' and len(args) == 2:
+            # zip(n.., walk) / zip(walk, n..): the open counter numbers the items from n
+            for ci, wi in ((0, 1), (1, 0)):
+                r = range_of(args[ci])
+                w = byte_walk(args[wi])
+                if r is not None and r[0] is not None and r[1] is None and args[ci][1].endswith('RangeFrom') and w is not None and w[1] is None:
+                    return (w[0], r[0], (ci, wi))
+            return None
+        if cal == 'core::iter::traits::iterator::Iterator::skip' and len(args) == 2:
+            # skip(n) drops the first n items: bytes and numbers both move on by n
+            w = byte_walk(args[0])
+            if w is not None:
+                return (offset(w[0], args[1]), None if w[1] is None else offset(w[1], args[1]), w[2])
+    return None
+
+def is_whole_walk(t):
+    """the term visits every byte of the input from the first, and a running number, if any, is the byte's index"""
+    w = byte_walk(t)
+    return w is not None and w[0] == ZERO and w[1] in (None, ZERO)
+
+def prefix_end(t):
+    """n if the term is input[..n] (as str or bytes, by slicing or as the first half of split_at(n)), else None"""
+    if t[0] == 'index':
+        r = range_of(t[2])
+        if r is not None and r[0] in (None, ZERO) and r[1] is not None and t[2][1].rsplit('::', 1)[-1] in ('RangeTo', 'Range') and t[1] == INPUT:
+            return r[1]
+    if t[0] == 'field' and t[2] == '0' and t[1][0] == 'call' and t[1][1] in ('core::slice::<impl [T]>::split_at', 'core::str::<impl str>::split_at') \
+            and len(t[1][2]) == 2 and t[1][2][0] == INPUT:
+        return t[1][2][1]
+    return None
+
+VEC_WRITES = ('push', 'extend', 'extend_from_slice', 'append', 'insert', 'resize', 'extend_from_within', 'push_str')
+SEARCHES = ('position', 'any', 'find', 'all')
+
+class UpToLoop(absx.Interp):
+    """The function evaluated from its entry up to the byte loop: a path that reaches the loop ends there with the term of what the
+    loop iterates over (kind 'atloop'); the other paths are the ones that leave the function before the loop."""
+    stop_at = None
+    def ev_For(self, e, st):
+        if e is self.stop_at:
+            return [absx.Out('atloop', o.val, o.st) if o.kind == 'val' else o for o in self.ev(e['iter'], st)]
+        return super().ev_For(e, st)
 
 class Escaper:
     """The roles of an escape function, found by type and data flow (never by name): the working copy of the input (a Cow<str>
     that comes from the parameter), the byte loop over it, the output accumulator declared before the loop (an Option<Vec<u8>>
-    filled lazily from the first escape on, or a Vec<u8> filled from the start)."""
-    def __init__(self, f, path, pname):
+    filled lazily from the first escape on, or a Vec<u8> filled from the start).  What the loop visits is read from the term of its
+    iterator on the paths that reach it (byte_walk): the bytes of the input from `start` on, possibly numbered."""
+    def __init__(self, f, path, pname, inline=None):
         self.f, self.path = f, path
         self.B = B = hirq.Body(f, f.body(path))
+        self.inline = inline or inline_local('ldap3::util::')
         self.loop = loop_of(B)
         if self.loop is None:
             raise absx.NotEvaluable('no single byte loop')
@@ -45,68 +128,153 @@ class Escaper:
         self.inb = [b for b, d in B.defs.items() if d['kind'] == 'let' and (d['pat'].get('ty') or '').startswith("alloc::borrow::Cow<") and d['src'] is not None
                     and B.roots(B.origin(d['src'])) == {('param', pname)}]
         accs = [(b, hirq.strip_refs(d['pat'].get('ty') or '')) for b, d in B.defs.items() if d['kind'] == 'let' and id(d['node']) not in inside
-                and hirq.strip_refs(d['pat'].get('ty') or '') in (T_LAZY, T_EAGER) and not any(a['k'] in ('For', 'Closure') for a, _ in B.context(d['node']) if False)]
+                and hirq.strip_refs(d['pat'].get('ty') or '') in (T_LAZY, T_EAGER)]
         # declared outside the loop: the Let statement is not a descendant of the loop
         accs = [(b, t) for b, t in accs if not any(x is B.defs[b]['node'] for blk, _c in walk(self.loop) if blk['k'] == 'Block' for x in blk['stmts'])]
         self.accs = accs
         self.lazy = any(t == T_LAZY for b, t in accs)
-        it = self.loop['iter']
-        names = [x['name'] for x, _ in walk(it) if x['k'] == 'MethodCall']
-        self.iter_ok = B.roots(B.origin(it)) <= {('param', pname)} | set() and any(n in names for n in ('as_bytes', 'bytes')) \
-            and all(n in ('enumerate', 'iter', 'as_bytes', 'bytes', 'into_iter', 'copied', 'cloned', 'as_ref') for n in names)
-        self.indexed = 'enumerate' in names
+        # locals that are never written after their declaration keep, inside the loop, the value they have when the loop is reached
+        self.frozen = {b for b, d in B.defs.items() if 'Mut' not in (d['pat'].get('mode') or 'Mut').split(',')[-1] and b not in B.assigns}
+        self._approach = {}
+        ents = self.approach(None)[0]
+        walks = [byte_walk(o.val) for o in ents]
+        self.walk = walks[0] if walks and all(w is not None and w == walks[0] for w in walks) else None
+        w = self.walk
+        # in order, every byte from `start` on, the running number (if any) being the byte's index in the input; `start` is the
+        # beginning of the input or the index a first-match search over the whole input has found
+        self.iter_ok = w is not None and w[1] in (None, w[0]) and (w[0] == ZERO or self.start_search(w[0]) is not None)
+        self.indexed = w is not None and w[1] is not None
+        self.two_phase = w is not None and w[0] != ZERO
+
+    @staticmethod
+    def start_search(start):
+        """the search atom (see absx: position) if `start` is the index of the first item of a walk over the whole input that
+        satisfies a predicate"""
+        if start[0] == 'posidx' and start[1][0] == 'position' and is_whole_walk(start[1][1]):
+            return start[1]
+        return None
+
+    def approach(self, pos):
+        """The function from its entry up to the loop, with the input's length the literal pos[1] if pos is given:
+        (paths that reach the loop, paths that leave before it, the searches over the input met on the way)."""
+        if pos in self._approach:
+            return self._approach[pos]
+        searches = []
+        def recorder(I, cal, args, node, st):
+            # a search with a predicate over a sequence (modelled in absx): note the predicate and the state it is applied in
+            if cal.rsplit('::', 1)[-1] in SEARCHES and ('iterator::Iterator::' in cal or 'core::iter::traits::iterator::Iterator>::' in cal) \
+                    and len(args) == 2 and args[1][0] in ('closure', 'fn'):
+                searches.append({'name': cal.rsplit('::', 1)[-1], 'src': args[0], 'pred': args[1], 'node': node, 'st': st, 'I': I})
+            return None
+        summaries = [recorder] + ([self.length_summary(pos[1])] if pos is not None else [])
+        I = UpToLoop(self.f, self.B, inline=self.inline, combinators=True, summaries=summaries)
+        I.stop_at = self.loop
+        env = {b: (INPUT if v[0] == 'param' else v) for b, v in I.param_env().items()}
+        outs = I.ev(self.B.root, absx.St(env))
+        r = ([o for o in outs if o.kind == 'atloop'], [o for o in outs if o.kind != 'atloop'], searches, I)
+        self._approach[pos] = r
+        return r
+
+    @staticmethod
+    def length_summary(n):
+        def length_of_input(I, cal, args, node, st):
+            if cal.rsplit('::', 1)[-1] in ('len', 'input_len') and len(args) == 1 and (args[0] == INPUT or absx.leaves(args[0], lambda x: x == INPUT)) \
+                    and not absx.leaves(args[0], lambda x: x[0] in ('index', 'call') and x is not args[0] and x[0] == 'index'):
+                return [absx.Out('val', ('lit', n), st)]
+            return None
+        return length_of_input
+
+    def item(self, c, pos):
+        """the loop's item for the literal byte c at position pos"""
+        return self.item_of(self.walk[2] if self.walk is not None else 'byte', c, pos)
+
+    @staticmethod
+    def item_of(layout, c, pos):
+        if layout == 'byte':
+            return ('lit', c)
+        pair = [None, None]
+        pair[layout[0]] = ('lit', pos[0]) if pos is not None else ('param', 'i')
+        pair[layout[1]] = ('lit', c)
+        return ('tuple', tuple(pair))
 
     def run_byte(self, c, started, inline, pos=None):
         """the loop body for the literal byte c: [(path outcome, bytes it emits, prefix-copy events)].  With pos = (i, n) the byte is the
         i-th of an input of n bytes: the index is that literal and every length taken of the input is n, so position tests are
-        decided exactly however they are spelled (`i == 0`, `match i { 0 => .. }`, `i + 1 == len`, a hoisted `let len = ..`)."""
-        summaries = None
-        if pos is not None:
-            def length_of_input(I, cal, args, node, st, n=pos[1]):
-                if cal.rsplit('::', 1)[-1] in ('len', 'input_len') and len(args) == 1 and (args[0] == ('param', 'input') or absx.leaves(args[0], lambda x: x == ('param', 'input'))) \
-                        and not absx.leaves(args[0], lambda x: x[0] in ('index', 'call') and x is not args[0] and x[0] == 'index'):
-                    return [absx.Out('val', ('lit', n), st)]
-                return None
-            summaries = [length_of_input]
-        I = absx.Interp(self.f, self.B, inline=inline, combinators=True, summaries=summaries)
-        env = {}
-        for b, name, proj, pn in hirq.pat_bindings(self.loop['pat']):
-            env[b] = (('lit', pos[0]) if pos is not None else ('param', 'i')) if (self.indexed and proj[:1] == (('tup', 0),)) else ('lit', c)
-        for b, t in self.accs:
-            env[b] = (('ctor', 'Some', (('vec', ()),)) if started else ('ctor', 'None', ())) if t == T_LAZY else ('vec', ())
-        for b in self.inb:
-            env[b] = ('param', 'input')
-        if pos is not None and self.B.root['k'] == 'Block':
-            # immutable locals declared before the loop (a hoisted `let len = val.len();`): evaluated once, in order
-            for stt in self.B.root['stmts']:
-                if any(x is self.loop for x, _ in walk(stt)):
-                    break
-                if stt['k'] == 'Let' and stt.get('init') is not None:
-                    bs = list(hirq.pat_bindings(stt['pat']))
-                    if len(bs) == 1 and not bs[0][2] and bs[0][0] not in env:
-                        try:
-                            vs = [o for o in I.ev(stt['init'], absx.St(env)) if o.kind == 'val']
-                        except Exception:
-                            vs = []
-                        if len(vs) == 1 and vs[0].val[0] == 'lit':
-                            env[bs[0][0]] = vs[0].val
+        decided exactly however they are spelled (`i == 0`, `match i { 0 => .. }`, `i + 1 == len`, a hoisted `let len = ..`, a
+        closure that captures it)."""
+        ents, _early, _s, I = self.approach(pos)
         res = []
-        for o in I.ev(self.loop['body'], absx.St(env)):
-            emitted, prefix = [], []
-            for e in o.st.ev:
-                if e[0] != 'call':
+        for ent in ents:
+            # the immutable locals declared before the loop have the value with which the loop is reached
+            env = {b: v for b, v in ent.st.env.items() if b in self.frozen}
+            for b, t in self.accs:
+                env[b] = (('ctor', 'Some', (('vec', ()),)) if started else ('ctor', 'None', ())) if t == T_LAZY else ('vec', ())
+            for b in self.inb:
+                env[b] = INPUT
+            for kind, s0 in I.match(self.loop['pat'], self.item(c, pos), absx.St(env, pc=ent.st.pc, ctr=ent.st.ctr)):
+                if kind == 'no':
                     continue
-                m = e[1].rsplit('::', 1)[-1]
-                if m == 'push' and 'Vec' in e[1]:
-                    emitted.append(e[2][1])
-                elif m in ('extend', 'extend_from_slice', 'append'):
-                    arrs = absx.leaves(e[2][1], lambda x: x[0] == 'array')
-                    if arrs and not absx.leaves(e[2][1], lambda x: x == ('param', 'input')):
-                        emitted.extend(arrs[0][1])
-                    else:
-                        prefix.append(e[2][1])
-            res.append((o, emitted, prefix))
+                for o in I.ev(self.loop['body'], s0):
+                    emitted, prefix = [], []
+                    for e in o.st.ev:
+                        if e[0] != 'call':
+                            continue
+                        m = e[1].rsplit('::', 1)[-1]
+                        if m == 'push' and 'Vec' in e[1]:
+                            emitted.append(e[2][1])
+                        elif m in ('extend', 'extend_from_slice', 'append'):
+                            arrs = absx.leaves(e[2][1], lambda x: x[0] == 'array')
+                            if arrs and not absx.leaves(e[2][1], lambda x: x == INPUT):
+                                emitted.extend(arrs[0][1])
+                            else:
+                                prefix.append(e[2][1])
+                    res.append((o, emitted, prefix))
         return res
+
+    def before_loop(self):
+        """Deviations from: the loop is reached with an output that holds input[..start] and nothing else (nothing at all when the
+        loop starts at the first byte)."""
+        wrong = []
+        ents = self.approach(None)[0]
+        if not ents or self.walk is None:
+            return ['the loop is not reached / does not walk the input']
+        start = self.walk[0]
+        for ent in ents:
+            copies = [e[2][1] for e in ent.st.ev if e[0] == 'call' and 'Vec' in e[1] and e[1].rsplit('::', 1)[-1] in VEC_WRITES]
+            inits = [ent.st.env.get(b, ('unk', 'acc')) for b, t in self.accs if t == T_EAGER]
+            held = [v for v in inits if v != ('vec', ())] + copies
+            if start == ZERO:
+                if held and not (len(held) == 1 and prefix_end(held[0]) == ZERO):
+                    wrong.append('the output is not empty when the loop starts at the first byte: %s' % [absx.fmt(x)[:60] for x in held])
+            elif self.lazy or len(held) != 1 or prefix_end(held[0]) != start:
+                wrong.append('the loop starts at byte `start` = %s but the output holds %s instead of input[..start]' % (absx.fmt(start)[:40], [absx.fmt(x)[:60] for x in held]))
+        return wrong
+
+    def search_tables(self, positions):
+        """For every search over the input met before the loop, the verdict of its predicate for each (byte, position):
+        [{'name', 'src', 'table': {(c, pos): set of truth values}}] - evaluated on literals, exactly like the loop body."""
+        recs = {}
+        for pos in positions:
+            for s in self.approach(pos)[2]:
+                w = byte_walk(s['src'])
+                if w is None:
+                    continue
+                key = (s['name'], s['src'], s['node'].get('id'))
+                rec = recs.setdefault(key, {'name': s['name'], 'src': s['src'], 'whole': is_whole_walk(s['src']), 'table': {}})
+                for c in range(256):
+                    vs = rec['table'].setdefault((c, pos), set())
+                    for o in s['I'].apply(s['pred'], [self.item_of(w[2], c, pos)], s['node'], s['st']):
+                        if o.kind != 'val':
+                            vs.add(None); continue
+                        for truth, _s in s['I'].decide(o.val, o.st) if o.val in (absx.TRUE, absx.FALSE) else [(None, None)]:
+                            vs.add(truth)
+        return list(recs.values())
+
+def finds_all(rec, escapes):
+    """the search cannot come back empty-handed (position / any / find: no item satisfies the predicate; all: every item does) on an
+    input that has one of `escapes` = {(byte, position)}: its predicate holds (all: fails) for each of them"""
+    want = {False} if rec['name'] == 'all' else {True}
+    return rec['whole'] and all(rec['table'].get(k) == want for k in escapes)
 
 def post_loop(B, loop):
     """The statements and tail expression of the function body that follow the byte loop, as one block."""
@@ -128,22 +296,27 @@ def escape_bytes(c):
     return [('lit', 0x5c), ('lit', HEXCH[c >> 4]), ('lit', HEXCH[c & 15])]
 
 def is_prefix_upto_i(t):
-    """input[..i] (as str or bytes)"""
-    idx = absx.leaves(t, lambda x: x[0] == 'index')
-    return len(idx) == 1 and bool(absx.leaves(idx[0][1], lambda x: x == ('param', 'input')) or idx[0][1] == ('param', 'input')) and idx[0][2][0] == 'struct' \
-        and idx[0][2][1].endswith('RangeTo') and (dict(idx[0][2][2]).get('end') == ('param', 'i') or (dict(idx[0][2][2]).get('end') or ('unk',))[0] == 'lit')
+    """input[..i] (as str or bytes), i the index of the byte the loop is at"""
+    cands = absx.leaves(t, lambda x: x[0] in ('index', 'field') and prefix_end(x) is not None) or ([t] if prefix_end(t) is not None else [])
+    return len(cands) == 1 and (prefix_end(cands[0]) == ('param', 'i') or prefix_end(cands[0])[0] == 'lit')
 
 def transducer(ctx, E, name, inline, contexts, positions=(None,)):
     """Evaluate the loop body for every byte (x output started?) and classify: returns {byte: set of (decision, context)} and the
-    list of deviations from "emit the byte itself, or backslash + two hex digits; copy the prefix exactly once, at the first escape"."""
+    list of deviations from "emit the byte itself, or backslash + two hex digits; copy the prefix exactly once, at the first escape"
+    (or, when the loop starts at the first byte a search has found: before the loop, see Escaper.before_loop)."""
     table, wrong = {}, []
     n_eval = 0
+    if E.walk is None:
+        return table, [('the loop does not walk the bytes of the input',)], 0
     for c in range(256):
       for pos in positions:
         for started in ((False, True) if E.lazy else (True,)):
             if pos is not None and pos[0] == 0 and started and E.lazy:
                 continue        # nothing can have been escaped before the first byte
-            for o, emitted, prefix in E.run_byte(c, started, inline, pos):
+            runs = E.run_byte(c, started, inline, pos)
+            if not runs:
+                wrong.append((c, started, 'the loop body was not evaluated'))
+            for o, emitted, prefix in runs:
                 n_eval += 1
                 if o.kind not in ('val', 'cont'):
                     wrong.append((c, started, 'leaves the loop: ' + o.kind)); continue
@@ -160,6 +333,17 @@ def transducer(ctx, E, name, inline, contexts, positions=(None,)):
                     table.setdefault(c, set()).add(('plain', cx))
                 else:
                     wrong.append((c, started, [absx.fmt(x) for x in emitted]))
+    wrong.extend(E.before_loop())
+    if E.two_phase and not wrong:
+        # the bytes before `start` are copied as they are: the search that found `start` must not pass over a byte the loop would escape
+        escapes = {(c, cx) for c, ds in table.items() for d, cx in ds if d == 'escape'}
+        atom = E.start_search(E.walk[0])
+        recs = [r for r in E.search_tables(positions) if atom is not None and r['name'] == 'position' and r['src'] == atom[1]]
+        if not recs:
+            wrong.append(('the loop does not start at the index a first-match search over the whole input has found',))
+        elif not all(finds_all(r, escapes) for r in recs):
+            missed = sorted(k for r in recs for k in escapes if r['table'].get(k) != {True})[:6]
+            wrong.append(('the bytes before the first match are copied unescaped, but the search passes over (byte, position) %s, which the loop escapes' % missed,))
     return table, wrong, n_eval
 
 def char_set(t):
@@ -181,16 +365,17 @@ def char_set(t):
             return None
     return out
 
-def check_identity_paths(ctx, E, name, escape_set):
+def check_identity_paths(ctx, E, name, escape_set, escapes, positions=(None,)):
     """Where the function hands its input back unchanged, nothing may need escaping: either the lazy accumulator is still None
     after the loop (an escape would have started it - the per-byte rule), or an earlier test excluded every byte of the escape
-    set (a `contains` over a set that covers it)."""
+    set (a `contains` over a set that covers it), or a search over the whole input with a predicate that holds for every
+    (byte, position) the loop escapes has found nothing.  escapes = {(byte, position)} as decided by the loop body."""
     B = E.B
     I = absx.Interp(E.f, B, unroll=1, for_once=True, combinators=True)
-    env = I.param_env()
+    env = {b: (INPUT if v[0] == 'param' else v) for b, v in I.param_env().items()}
     outs = I.run(env=env)
-    inp = None
     n_id = 0
+    tables = None
     for o in outs:
         if o.kind not in ('val', 'ret'):
             continue
@@ -199,16 +384,26 @@ def check_identity_paths(ctx, E, name, escape_set):
         if not ident:
             continue
         n_id += 1
-        acc_none = any(a[0] == 'is' and a[2] == 'Some' and not t for a, t in o.st.pc) or \
-            any(o.st.env.get(b) == ('ctor', 'None', ()) for b, ty in E.accs if ty == T_LAZY)
+        # (the Option that is None on the path must be the lazy accumulator as the loop leaves it - not just any Option)
+        lazy_now = [o.st.env.get(b) for b, ty in E.accs if ty == T_LAZY]
+        acc_none = any(a[0] == 'is' and a[2] == 'Some' and not t and (a[1] in lazy_now or (a[1][0] == 'carried' and a[1][1] in [b for b, ty in E.accs if ty == T_LAZY]))
+                       for a, t in o.st.pc) or any(v == ('ctor', 'None', ()) for v in lazy_now)
         by_contains = False
+        by_search = False
         for a, t in o.st.pc:
             if a[0] == 'call' and a[1].rsplit('::', 1)[-1] == 'contains' and not t:
                 cs = char_set(a[2][1])
                 if cs is not None and cs >= escape_set:
                     by_contains = True
+            if a[0] in ('position', 'any', 'all') and t == (a[0] == 'all') and is_whole_walk(a[1]):
+                # nothing found (all: everything passes) - see absx for the atom; `find` is recorded as `position`
+                if tables is None:
+                    tables = E.search_tables(positions)
+                recs = [r for r in tables if r['src'] == a[1] and (r['name'] if r['name'] != 'find' else 'position') == a[0]]
+                if recs and all(finds_all(r, escapes) for r in recs):
+                    by_search = True
         in_loop_ret = any(e[0] == 'call' and e[1].rsplit('::', 1)[-1] == 'push' for e in o.st.ev)
-        ctx.add('E4.identity-only-when-nothing-to-escape', name, loc(B.root), (acc_none or by_contains) and not in_loop_ret,
+        ctx.add('E4.identity-only-when-nothing-to-escape', name, loc(B.root), (acc_none or by_contains or by_search) and not in_loop_ret,
                 'the input is returned unchanged on a path that neither left the lazy output unset nor excluded every byte of the escape set %s' % sorted(escape_set))
     return n_id
 
@@ -234,7 +429,7 @@ def run(ctx):
             'ldap_escape escapes %s; the filter lexer rejects %s in values and unescapes on backslash' % (sorted(escaped), sorted(want - {0x5c})))
     ctx.add('E1.escape-set', 'ldap_escape', loc(E.B.root), escaped == {0, 0x28, 0x29, 0x2a, 0x5c}, 'escape set is %s, documented: \\ * ( ) NUL' % sorted(escaped))
     ctx.analysed['notes'].append({'ldap_escape evaluations': n_eval})
-    check_identity_paths(ctx, E, 'ldap_escape', {0, 0x28, 0x29, 0x2a, 0x5c})
+    check_identity_paths(ctx, E, 'ldap_escape', {0, 0x28, 0x29, 0x2a, 0x5c}, {(c, None) for c in escaped})
     check_tail(ctx, f, E, 'ldap_escape')
 
     # ------------------------------------------------------------------ E2 dn_escape
@@ -277,7 +472,8 @@ def run(ctx):
             'always-escaped set %s must contain RFC 4514\'s %s and stay within ASCII punctuation' % (sorted(always), sorted(RFC4514_SPECIAL)))
     ctx.add('E2.leading', 'dn_escape', loc(D.B.root), leading == {0x20, 0x23}, 'escaped only in first position: %s, RFC 4514: space and #' % sorted(leading))
     ctx.add('E2.trailing', 'dn_escape', loc(D.B.root), trailing == {0x20}, 'escaped only in last position: %s, RFC 4514: space' % sorted(trailing))
-    check_identity_paths(ctx, D, 'dn_escape', always | leading | trailing)
+    check_identity_paths(ctx, D, 'dn_escape', always | leading | trailing, {(c, pos) for c, ds in table.items() for d, pos in ds if d == 'escape'},
+                         positions=(ONLY, FIRST, MIDDLE, LAST))
     check_tail(ctx, f, D, 'dn_escape')
 
     # ------------------------------------------------------------------ E5 ldap_unescape
@@ -345,23 +541,41 @@ def run(ctx):
     ctx.add('E5.unescape-result', 'ldap_unescape', loc(U.root), okt, 'result by (output started, final state): %s' % tails)
 
 
+class PastLoop(absx.Interp):
+    """The function evaluated around the byte loop: the loop itself is stepped over, leaving the accumulators with the given values
+    (what the loop does is decided per byte, see transducer), so that the paths show what the function does with them afterwards,
+    wherever the loop stands in the body."""
+    stop_at, acc_after = None, {}
+    def ev_For(self, e, st):
+        if e is self.stop_at:
+            outs = []
+            for o in self.ev(e['iter'], st):
+                if o.kind != 'val':
+                    outs.append(o); continue
+                s = o.st
+                for b, v in self.acc_after.items():
+                    s = s.set(b, v)
+                outs.append(absx.Out('val', absx.UNIT, s.event(('loop-done',))))
+            return outs
+        return super().ev_For(e, st)
+
+def after_loop(f, E, acc_after):
+    """what the function returns on the paths that run through the byte loop, given the accumulators' values after it"""
+    I = PastLoop(f, E.B, combinators=True)
+    I.stop_at, I.acc_after = E.loop, acc_after
+    env = {b: (INPUT if v[0] == 'param' else v) for b, v in I.param_env().items()}
+    return [o.val for o in I.ev(E.B.root, absx.St(env)) if o.kind in ('val', 'ret') and ('loop-done',) in o.st.ev]
+
 def check_tail(ctx, f, E, name):
     """E4: after the loop the collected bytes are what is returned (as an owned string) whenever output was started."""
     B = E.B
-    I = absx.Interp(f, B, combinators=True)
-    t = post_loop(B, E.loop)
-    if t is None or not E.accs or len(E.inb) != 1:
-        ctx.fail('E4.tail', name, loc(B.root), 'unexpected function shape (no tail expression / accumulator / working copy of the input)'); return
-    env = {E.inb[0]: ('param', 'input')}
-    for b, ty in E.accs:
-        env[b] = ('ctor', 'Some', (('param', 'out'),)) if ty == T_LAZY else ('param', 'out')
-    r1 = [o.val for o in I.ev(t, absx.St(env)) if o.kind in ('val', 'ret')]
-    ok = len(r1) == 1 and r1[0][0] == 'ctor' and r1[0][1] == 'Cow::Owned' and absx.leaves(r1[0], lambda x: x == ('param', 'out')) and 'from_utf8' in str(r1[0])
-    ctx.add('E4.owned-when-escaped', name, loc(t), ok, 'with escapes the function does not return the collected output')
+    if not E.accs or len(E.inb) != 1:
+        ctx.fail('E4.tail', name, loc(B.root), 'unexpected function shape (no accumulator / working copy of the input)'); return
+    where = post_loop(B, E.loop) or B.root
+    r1 = after_loop(f, E, {b: ('ctor', 'Some', (('param', 'out'),)) if ty == T_LAZY else ('param', 'out') for b, ty in E.accs})
+    ok = bool(r1) and all(v[0] == 'ctor' and v[1] == 'Cow::Owned' and absx.leaves(v, lambda x: x == ('param', 'out')) and 'from_utf8' in str(v) for v in r1)
+    ctx.add('E4.owned-when-escaped', name, loc(where), ok, 'with escapes the function does not return the collected output')
     if E.lazy:
-        env0 = dict(env)
-        for b, ty in E.accs:
-            if ty == T_LAZY:
-                env0[b] = ('ctor', 'None', ())
-        r0 = [o.val for o in I.ev(t, absx.St(env0)) if o.kind in ('val', 'ret')]
-        ctx.add('E4.unchanged-when-nothing-escaped', name, loc(t), r0 == [('param', 'input')], 'with nothing to escape the function returns %s instead of its input' % [absx.fmt(x) for x in r0])
+        r0 = after_loop(f, E, {b: ('ctor', 'None', ()) if ty == T_LAZY else ('param', 'out') for b, ty in E.accs})
+        ctx.add('E4.unchanged-when-nothing-escaped', name, loc(where), bool(r0) and all(v == INPUT for v in r0),
+                'with nothing to escape the function returns %s instead of its input' % [absx.fmt(x) for x in r0])
